@@ -92,6 +92,30 @@ def run_generic(ctx, pt):
                             ctx.eq('C15/crc-backward', r, ('ok', fw))
 
 
+def pts_samevalue(tier):
+    return [(v, ws) for v, ws in ((0xA001, (16, 17, 24, 32, 64)), (0xEDB88320, (32, 33, 40, 64)), (0x8C, (8, 9, 16, 32)), (0xEDB88320, (64, 40, 32)),
+                                  (0xA001, (64, 16)), (1, (8, 64, 9)), (0xC96C5795D7870F42, (64,)))]
+
+
+def run_samevalue(ctx, pt):
+    """the same polynomial value used at several widths in one process, in the given order"""
+    from crysp.crc import crc, crc_table, crc_back_table, crc_back_pos
+    from crysp.bits import Bits
+    v, ws = pt
+    for N in ws:
+        mask = (1 << N) - 1
+        T = ctx.call(crc_table, Bits(v, N))
+        Tb = ctx.call(crc_back_table, Bits(v, N))
+        for m in (b'', b'a', ramp(9, 29, 7), expander(20, 2)):
+            for init in (0, mask, mask >> 1):
+                for final in (0, mask):
+                    c = ctx.attempt(crc, m, T, init, final)
+                    ctx.eq('C15/generic-crc/same-polynomial-value-at-several-widths', c, ('ok', bitwise_crc(v, N, m, init, final)))
+                    if len(m) > 1 and c[0] == 'ok' and v >> (N - 1):
+                        fw = bitwise_crc(v, N, m[:1], init, 0)
+                        ctx.eq('C15/crc-backward/same-polynomial-value-at-several-widths', ctx.attempt(crc_back_pos, m, 1, Tb, final, c[1]), ('ok', fw))
+
+
 def pts_forge(tier):
     pts = []
     for n in range(4, (17 if tier == 'thorough' else 13)):
@@ -122,6 +146,14 @@ def run_forge(ctx, pt):
             ctx.ok('C15/crc32_fix_pos/shape', ok, r, 'same length, only bytes pos..pos+3 changed')
             if ok:
                 ctx.eq('C15/crc32_fix_pos/target', zlib.crc32(r[1]), t)
+    # targets chosen so that the four fixing bytes come out as 00000000, ffffffff, 00000001, 80000000 (value classes of the result)
+    for pos in range(0, n - 3):
+        for window in (b'\0\0\0\0', b'\xff\xff\xff\xff', b'\0\0\0\x01', b'\x80\0\0\0', b'\0\0\x01\0'):
+            want = data[:pos] + window + data[pos + 4:]
+            t = zlib.crc32(want)
+            ctx.eq('C15/crc32_fix_pos/crafted-window', ctx.attempt(crc32_fix_pos, data, pos, t), ('ok', want))
+            if pos == n - 4:
+                ctx.eq('C15/crc32_fix/crafted-window', ctx.attempt(crc32_fix, data, t), ('ok', want))
     c = zlib.crc32(data)
     for pos in range(0, n):
         fw = zlib.crc32(data[:pos]) ^ 0xffffffff
@@ -134,8 +166,10 @@ def subchecks():
         Sub('width8', pts_w8, run_w8, engine='D', bound='every reflected polynomial of width 8 x every 1-byte input x init/final in {0,FF}^2 vs bit-by-bit division'),
         Sub('generic', pts_generic, run_generic, engine='P', exhaustive=False,
             bound='every width 8..64 x {top bit only, all ones, named standard, expander-derived (+3 in thorough)} x 2 patterns of length 0..9 x init/final in {0,all-ones}^2; backward computation at every position'),
+        Sub('same-value-widths', pts_samevalue, run_samevalue, engine='H', chunk=1,
+            bound='polynomial values A001, EDB88320, 8C, 1, C96C5795D7870F42 each used at 1-5 widths in sequence in one process (also in descending order): tables, forward and backward CRC with init in {0, all-ones, all-ones>>1}, final in {0, all-ones}'),
         Sub('forging', pts_forge, run_forge, engine='P', exhaustive=False,
-            bound='data length 4..12 (thorough ..16) x 2 patterns x every position x targets {0, ~0, 32 single-bit words, crc32(data), 3 fixed words}'),
+            bound='data length 4..12 (thorough ..16) x 2 patterns x every position x targets {0, ~0, 32 single-bit words, crc32(data), 3 fixed words} and the targets that make the fixing window 00000000 / ffffffff / 00000001 / 80000000 / 00000100'),
     ]
 
 
